@@ -132,9 +132,22 @@ def medianSorted (l : List Rat) : Option Rat :=
 
 /-! ### `observe` -/
 
-/-- `Stopper.observe` (base class) -/
+/-- `Stopper.transform_objective`: "by default the identity transformation is used" (the replacement by the
+maximum observed so far is commented out in the code); none of the five stoppers overrides it -/
+def transformObjective (_js : JS) (o : Obj) : Obj := o
+
+/-- `Stopper.observe` (base class): `objective = self.transform_objective(objective)`, then both lists grow -/
 def baseObserve (js : JS) (b : Nat) (o : Obj) : JS :=
-  { js with budgets := js.budgets ++ [b], objs := js.objs ++ [o] }
+  { js with budgets := js.budgets ++ [b], objs := js.objs ++ [transformObjective js o] }
+
+/-- `Stopper.step` : the last observed budget -/
+def JS.step (js : JS) : Option Nat := js.budgets.getLast?
+
+/-- `Stopper.objective` / `RunningJob.objective` : the last observed objective (`observations[-1][-1]`) -/
+def JS.objective (js : JS) : Option Obj := js.objs.getLast?
+
+/-- `Stopper.observations` : `[observed_budgets, observed_objectives]` (a deep copy) -/
+def JS.observations (js : JS) : List Nat × List Obj := (js.budgets, js.objs)
 
 /-- `_compute_halting_budget()` : `(min_steps - 1) + reduction_factor ** (min_early_stopping_rate + rung)` -/
 def shaHB (ms rf mesr rung : Nat) : Int := (ms : Int) - 1 + ((rf ^ (mesr + rung) : Nat) : Int)
@@ -163,7 +176,8 @@ def observeRec (P : Params) (jr : JobRec) (b : Nat) (o : Obj) : JobRec × Option
   | .median ms _ iv _ =>
     match medianIsHalting ms iv b with
     | none => ({ jr with js := js }, some .zeroDivision)
-    | some true => ({ jr with md := mset (.rung js.rung) (.obj o) jr.md, js := js }, none)
+    | some true =>   -- stores `self.observed_objectives[-1]`, i.e. the transformed objective (SHA stores the raw one)
+      ({ jr with md := mset (.rung js.rung) (.obj (transformObjective jr.js o)) jr.md, js := js }, none)
     | some false => ({ jr with js := js }, none)
   | _ => ({ jr with js := js }, none)
 
@@ -309,5 +323,92 @@ def protoRun (P : Params) (s : Sys) (es : List Ev) : Sys × List Dec := protoRun
 
 /-- the state after a schedule -/
 def reach (P : Params) (es : List Ev) : Sys := (protoRun P [] es).1
+
+/-! ### the property's clauses over an observed trace, and their checker
+
+A trace lists, in the order they happened, `(job, budget, objective recorded, what stopped() answered)`.
+`TraceSpec` states the clauses budget / failure / best-survives / sha-topk of the property over such a trace
+(no reference to the model above); `checkStopTrace` decides it and is run by the driver on the traces of
+the REAL stoppers. -/
+
+structure TEv where
+  job : Nat
+  step : Nat
+  obj : Obj
+  stop : Bool
+  deriving Repr
+
+def Obj.isFail : Obj → Bool
+  | .fail _ => true
+  | .num _ => false
+
+/-- the job observed a failure in the events `pre` -/
+def failedIn (pre : List TEv) (j : Nat) : Bool := pre.any (fun e => e.job == j && e.obj.isFail)
+
+/-- the numbers other evaluations recorded at budget `b` in the earlier events `pre` -/
+def othersAt (pre : List TEv) (j b : Nat) : List Rat :=
+  pre.filterMap (fun e => if e.job ≠ j ∧ e.step = b then (match e.obj with | .num q => some q | .fail _ => none) else none)
+
+/-- … leaving out the evaluations that failed since (successive halving forgets their rungs) -/
+def liveOthersAt (pre : List TEv) (j b : Nat) : List Rat :=
+  pre.filterMap (fun e => if e.job ≠ j ∧ e.step = b ∧ failedIn pre e.job = false then
+    (match e.obj with | .num q => some q | .fail _ => none) else none)
+
+/-- the clauses "never cuts the best" / "only outside the top 1/rf" apply to these stoppers -/
+def Params.bestApplies (P : Params) : Bool :=
+  match P.kind with
+  | .median _ _ _ _ => true
+  | .sha _ _ _ mc _ _ => mc == 0
+  | _ => false
+
+def Params.topkRf (P : Params) : Option Nat :=
+  match P.kind with
+  | .sha _ rf _ mc _ _ => if mc = 0 then some rf else none
+  | _ => none
+
+/-- among `n = |others| + 1` competitors at least `max 1 (n / rf)` are better than `q` -/
+def OutsideTop (rf : Nat) (others : List Rat) (q : Rat) : Prop :=
+  max 1 ((others.length + 1) / rf) ≤ others.countP (fun v => decide (q < v))
+
+/-- the clauses for one event `e` that happened after the events `pre` -/
+structure EvSpec (P : Params) (pre : List TEv) (e : TEv) : Prop where
+  budget : P.maxSteps ≤ e.step → e.stop = true
+  failure : e.obj.isFail = true → e.stop = true
+  best : P.bestApplies = true → e.stop = true → e.step < P.maxSteps → ∀ q, e.obj = .num q →
+    ∃ v ∈ othersAt pre e.job e.step, q < v
+  topk : ∀ rf, P.topkRf = some rf → e.stop = true → e.step < P.maxSteps → ∀ q, e.obj = .num q →
+    OutsideTop rf (liveOthersAt pre e.job e.step) q ∨ OutsideTop rf (othersAt pre e.job e.step) q
+
+/-- every event of the trace satisfies the clauses, given the events before it -/
+def TraceSpec (P : Params) (t : List TEv) : Prop :=
+  ∀ pre e post, t = pre ++ e :: post → EvSpec P pre e
+
+def outsideTop (rf : Nat) (others : List Rat) (q : Rat) : Bool :=
+  decide (max 1 ((others.length + 1) / rf) ≤ others.countP (fun v => decide (q < v)))
+
+def evOK (P : Params) (pre : List TEv) (e : TEv) : Bool :=
+  (decide (P.maxSteps ≤ e.step) → e.stop) &&
+  (e.obj.isFail → e.stop) &&
+  (match e.obj with
+   | .fail _ => true
+   | .num q =>
+     if e.stop && decide (e.step < P.maxSteps) then
+       (P.bestApplies → (othersAt pre e.job e.step).any (fun v => decide (q < v))) &&
+       (match P.topkRf with
+        | none => true
+        | some rf => outsideTop rf (liveOthersAt pre e.job e.step) q || outsideTop rf (othersAt pre e.job e.step) q)
+     else true)
+
+def checkFrom (P : Params) : List TEv → List TEv → Bool
+  | _, [] => true
+  | pre, e :: rest => evOK P pre e && checkFrom P (pre ++ [e]) rest
+
+/-- the verified checker -/
+def checkStopTrace (P : Params) (t : List TEv) : Bool := checkFrom P [] t
+
+/-- (diagnostics only) the first event that violates a clause -/
+def firstBad (P : Params) : List TEv → List TEv → Nat → Option Nat
+  | _, [], _ => none
+  | pre, e :: rest, i => if evOK P pre e then firstBad P (pre ++ [e]) rest (i + 1) else some i
 
 end DH.Stopper
